@@ -1,4 +1,5 @@
 """C19: viewer selections (head-less Agg viewer driven with synthetic events)."""
+import os
 import warnings
 
 import numpy as np
@@ -31,7 +32,26 @@ class Ev(object):
         self.__dict__.update(kw)
 
 
+def gen_deep_C19(rng):
+    """a staircase image: every step of row 0 is one level deeper in the tree (a branch with the rest of the stairs and a small
+    leaf in row 1 as children), more than 8 bits count levels deep; every structure selected at once in one slot"""
+    depth = rng.choice([258, 270, 300])
+    w = 2 * depth + 1
+    k = [0] * (2 * w)
+    for c in range(w):
+        k[c] = 4 * (c + 2)                 # row 0: rising stairs
+        if c % 2 == 1:
+            k[w + c] = 4 * (c + 2) + 2     # row 1: a spike above every other stair -> a leaf that merges one level down
+    case = {'shape': [2, w], 'fb': 0, 'k': k, 'dtype': 'float64', 'minv': [0, 1], 'mind': 0, 'minn': 0, 'crits': [], 'kind': 'deep',
+            'periodic': [], 'adj': 'grid', 'layout': 'C', 'reuse': False, 'pstyle': 'py', 'crit_container': 'list'}
+    slot = rng.choice([1, 2, 3])
+    events = [['multi', slot, list(range(0, 1000))], ['click', rng.choice([1, 2, 3]), w - 1, 0, 0.0], ['multi', slot, list(range(0, 1000, 2))]]
+    return {'case': case, 'ops': [], 'events': events, 'ncb': 1, 'nanrow': None}
+
+
 def gen_item_C19(rng, idx, tier):
+    if idx == 7 and os.environ.get('VERIF_DEEP_VIEWER', '1') == '1':
+        return gen_deep_C19(rng)
     nd = 2 if idx % 3 != 2 else 3
     while True:
         shape = [rng.randint(2, 6) for _ in range(nd)]
@@ -259,6 +279,20 @@ def eval_C19(item):
                 got = masks.get(slot)
                 if got is None or not np.array_equal(got, want):
                     res['corr'].append('slot %d contour mask differs from the model' % slot)
+                # independent of the model: what is outlined is the region (the structure with its substructures: what a
+                # contour at its level encloses) of the selected structure, or of every listed structure for a selection
+                # without subtree, in the displayed slice
+                mine = np.zeros(int(np.prod(shape)), dtype=bool)
+                for sid_ in (ids[:1] if v.hub.select_subtree[slot] else ids):
+                    if sid_ is not None and sid_ in structs:
+                        mine[structs[sid_]['pixsub']] = True
+                mine = mine.reshape(shape)
+                if nd == 3:
+                    mine = mine[cur_slice]
+                if got is not None and not np.array_equal(np.asarray(got, dtype=bool), mine):
+                    res['pred'].append('slot %d: the contour outlines %d pixels, the regions of the selected structures %r (subtree=%s) cover %d; first difference at %r'
+                                       % (slot, int(np.asarray(got, dtype=bool).sum()), ids[:6], bool(v.hub.select_subtree[slot]), int(mine.sum()),
+                                          tuple(int(x) for x in np.argwhere(np.asarray(got, dtype=bool) != mine)[0])))
         # predicates on the slot of this event
         slot = ev[1]
         sel = v.hub.selections.get(slot)
